@@ -621,6 +621,14 @@ fn c06_impl(ix: &Index, only: Option<&dyn Fn(&MAtt) -> bool>) -> Vec<Viol> {
     }
     let mut keys: HashMap<&str, Vec<Loc>> = HashMap::new();
     let mut events: HashMap<&str, Vec<Loc>> = HashMap::new();
+    let mut key_uses: HashMap<&str, usize> = HashMap::new();
+    for a in &h.atts {
+        if let AKind::Props(ps) = &a.kind {
+            for (k, _) in ps {
+                *key_uses.entry(k.as_str()).or_insert(0) += 1;
+            }
+        }
+    }
     for (bi, b) in h.batches.iter().enumerate() {
         for r in &b.records {
             for (pos, (k, val)) in r.properties.iter().enumerate() {
@@ -726,9 +734,15 @@ fn c06_impl(ix: &Index, only: Option<&dyn Fn(&MAtt) -> bool>) -> Vec<Viol> {
         let (locs, what): (Vec<&Loc>, String) = match &a.kind {
             AKind::Props(ps) => {
                 let mut l = Vec::new();
-                for (k, _) in ps {
+                for (k, val) in ps {
                     if let Some(ls) = keys.get(k.as_str()) {
-                        l.extend(ls.iter());
+                        // a key attached more than once (a property that is updated) is told
+                        // apart by its value, which is unique in that case
+                        if key_uses.get(k.as_str()).copied().unwrap_or(0) > 1 {
+                            l.extend(ls.iter().filter(|x| x.value == Some(val.as_str())));
+                        } else {
+                            l.extend(ls.iter());
+                        }
                     }
                 }
                 (l, format!("property {:?}", ps.first().map(|p| p.0.as_str()).unwrap_or("")))
